@@ -1,7 +1,8 @@
 (* C17 — Legendre polynomials, zonal harmonics, real Fourier series and their basis-space
    Laplacians.  Terms regenerated into gen/Gen_C17.v.  DESIGN.md §7 C17. *)
 From Coq Require Import Reals List Lra Lia ZArith Field Bool.
-From ND.lib Require Import Expr ExprLemmas Tac.
+From ND.lib Require Import Expr ExprLemmas Tac Poly.
+From Coq Require Import QArith Qreals.
 From ND.gen Require Import Gen_C17.
 Import ListNotations.
 Open Scope R_scope.
@@ -20,18 +21,37 @@ Proof. split; reflexivity. Qed.
 Definition legendre_ode (d : nat) (P : expr) : expr :=
   (ECst 1 -' EPow (EVar 0) 2) *' D 0 (D 0 P) -' ECst 2 *' EVar 0 *' D 0 P +' ECst (Z.of_nat (d * (d + 1))) *' P.
 
+(* The generated terms are whatever the source computes (since the repair of the unstable monomial sum: Bonnet's
+   recurrence, a tree that duplicates its sub-terms), so the identities are decided by the certified polynomial
+   normaliser of lib/Poly.v: coefficients computed by vm_compute, soundness proved once. *)
 Lemma legendre_ode_holds : forall d, (d <= 12)%nat -> forall venv penv fenv,
   eval venv penv fenv (legendre_ode d (nth d legendre_terms (ECst 0))) = 0.
 Proof.
-  intros d Hd venv penv fenv.
-  do 13 (destruct d as [|d]; [cbn [nth legendre_terms]; reduce_eval; field |]). lia.
+  intros d Hd venv penv fenv. apply (is_zero_poly_sound venv penv fenv 0%nat).
+  do 13 (destruct d as [|d]; [vm_compute; reflexivity |]). lia.
 Qed.
 
 Lemma legendre_normalised : forall d, (d <= 12)%nat -> forall venv penv fenv, venv 0%nat = 1 ->
   eval venv penv fenv (nth d legendre_terms (ECst 0)) = 1.
 Proof.
-  intros d Hd venv penv fenv H1.
-  do 13 (destruct d as [|d]; [cbn [nth legendre_terms]; reduce_eval; rewrite ?H1; field |]). lia.
+  intros d Hd venv penv fenv H1. rewrite <- RMicromega.Q2R_1.
+  apply (value_at_one_sound venv penv fenv 0%nat); [|exact H1].
+  do 13 (destruct d as [|d]; [vm_compute; reflexivity |]). lia.
+Qed.
+
+(* ... and it is a polynomial of degree exactly d in x: the last non-zero coefficient has index d *)
+Fixpoint pdeg_aux (p : poly) (i : nat) (acc : option nat) : option nat :=
+  match p with
+  | [] => acc
+  | c :: r => pdeg_aux r (S i) (if Qeq_bool c 0 then acc else Some i)
+  end.
+Definition pdeg (p : poly) : option nat := pdeg_aux p 0 None.
+
+Lemma legendre_degree : forall d, (d <= 12)%nat ->
+  exists p, pnorm 0 (nth d legendre_terms (ECst 0)) = Some p /\ pdeg p = Some d.
+Proof.
+  intros d Hd.
+  do 13 (destruct d as [|d]; [eexists; split; [vm_compute; reflexivity | vm_compute; reflexivity] |]). lia.
 Qed.
 
 (* ---- zonal harmonics: column l = P_l(cos theta) * sqrt((2l+1)/(4 pi)) (PI = parameter 0) *)
